@@ -270,3 +270,45 @@ func VC15_cache() {
 		vrt.Assert(sc.stacks[0].counter.Name() != sc.stacks[1].counter.Name(), "StackCounter.Inc: different stacks have different names")
 	}
 }
+
+// VC15_deep: the same for deep stacks (more than 32 frames, still short of truncation)
+// that differ in a single frame anywhere - innermost, around the 32nd, outermost.
+func VC15_deep() {
+	depth := []int{33, 40, 64}[vrt.Choose(3)]
+	a := make([]uintptr, depth)
+	b := make([]uintptr, depth)
+	for i := range a {
+		a[i] = uintptr(1 + i%3)
+		b[i] = a[i]
+	}
+	pos := []int{-1, 0, 31, 32, depth - 1}[vrt.Choose(5)]
+	if pos >= 0 {
+		delta := vrt.U8()
+		vrt.Assume(delta >= 1 && delta <= 6) // formatting concretises it
+		b[pos] = a[pos] + uintptr(delta)
+	}
+	var cur []uintptr
+	vruntime.CallersHook = func(pcs []uintptr) int { return copy(pcs, cur) }
+	vruntime.FramesHook = func(pcs []uintptr) []vruntime.Frame {
+		fs := make([]vruntime.Frame, len(pcs))
+		for i, pc := range pcs {
+			fs[i] = vruntime.Frame{PC: 100 + pc, Entry: 100, Function: "pk.f", Func: &vruntime.Func{}}
+		}
+		return fs
+	}
+	f := &file{}
+	sc := &StackCounter{name: "s", depth: depth, file: f}
+	cur = a
+	sc.Inc()
+	cur = b
+	sc.Inc()
+	if pos < 0 {
+		vrt.Assert(len(sc.stacks) == 1, "StackCounter.Inc (deep): same call stack hits one counter")
+	} else {
+		vrt.Assert(len(sc.stacks) == 2, "StackCounter.Inc (deep): stacks differing in one frame hit different counters")
+		if len(sc.stacks) == 2 {
+			n0, n1 := sc.stacks[0].counter.Name(), sc.stacks[1].counter.Name()
+			vrt.Assert(len(n0) < maxNameLen && n0 != n1, "StackCounter.Inc (deep): untruncated and different names")
+		}
+	}
+}
